@@ -6,11 +6,9 @@ import (
 	peer "github.com/libp2p/go-libp2p/core/peer"
 )
 
-func verif_go(name string, f func())                                               { panic("intrinsic") }
 func verif_quiesce()                                                               { panic("intrinsic") }
 func verif_cancelCtx(parent context.Context) (context.Context, context.CancelFunc) { panic("intrinsic") }
 func verif_parkedCount() int                                                       { panic("intrinsic") }
-func verif_ctx(cancelled bool) context.Context                                     { panic("intrinsic") }
 
 // VerifC16ConnCoop: the connectedness manager with its real maps under the symbolic scheduler of DESIGN 4b.
 // Group "g" has peer p1 (Disconnected) -- set up sequentially. A waiter calls WaitForConnectednessChange with the view
